@@ -427,7 +427,7 @@ func plans(tier string) []mc.Plan {
 }
 
 func init() {
-	mc.Register(&mc.Check{ID: "C05", Plans: plans, Budget: map[string]int{"quick": 150, "thorough": 1800},
+	mc.Register(&mc.Check{ID: "C05", Plans: plans, Budget: map[string]int{"quick": 240, "thorough": 1800},
 		Notes: "C05: for every transport call index k of a fault-free default run (+1), endpoint, read/write and fault kind (error return, error after j bytes, peer close, local close) the workload is re-run with that fault armed under every schedule within the bound; oracle: no panic, every pending call returns, later calls fail, connection reports closed, delivered data is a correct per-stream prefix."})
 }
 
